@@ -62,3 +62,52 @@ func MapKeys(m interface{}) interface{} {
 	}
 	return out.Interface()
 }
+
+// SetSelectOrder selects how rewritten select statements poll their cases:
+// 0 = in source order, k>0 = starting at a position drawn from a stream derived
+// from (run seed, k).
+//
+//go:norace
+func (s *Sim) SetSelectOrder(k int) {
+	s.selSalt = uint64(k)
+	s.selState = Mix(s.Seed, 0x73656c6563740000+uint64(k))
+}
+
+var identityOrders = func() [][]int {
+	r := make([][]int, 17)
+	for n := range r {
+		r[n] = make([]int, n)
+		for i := range r[n] {
+			r[n][i] = i
+		}
+	}
+	return r
+}()
+
+// SelectOrder is called by rewritten select statements (see simgen): the order
+// in which the n communication cases are polled.
+//
+//go:norace
+func SelectOrder(n int) []int {
+	if n < len(identityOrders) {
+		if t := Current(); t != nil && t.sim.selSalt != 0 && n > 1 {
+			s := t.sim
+			s.lock()
+			start := int(splitmix(&s.selState) % uint64(n))
+			s.unlock()
+			if start != 0 {
+				o := make([]int, n)
+				for i := range o {
+					o[i] = (start + i) % n
+				}
+				return o
+			}
+		}
+		return identityOrders[n]
+	}
+	o := make([]int, n)
+	for i := range o {
+		o[i] = i
+	}
+	return o
+}
